@@ -62,6 +62,54 @@ theorem conflicting_needs_more_than_f {α : Type} [DecidableEq α] (V A B : Fins
 example : thrA 4 = 3 ∧ thrG 4 = 3 ∧ f 4 = 1 ∧
     (({0, 1, 2} : Finset Nat) ∩ {1, 2, 3}).card = 2 ∧ ({0, 1, 2} : Finset Nat) ⊆ {0, 1, 2, 3} := by decide
 
+/-! ## Consequences: an honest validator in every intersection, quorums reachable by the honest validators,
+and how far the historical (`needFix`) ledger rule is from these guarantees -/
+
+/-- If at most f validators are faulty, any two quorums (block-acceptance or governance, in any combination)
+share a validator that is not faulty. -/
+theorem honest_in_intersection {α : Type} [DecidableEq α] (V A B F : Finset α) (hA : A ⊆ V) (hB : B ⊆ V)
+    (hN : 1 ≤ V.card)
+    (ha : thrA V.card ≤ A.card ∨ thrG V.card ≤ A.card) (hb : thrA V.card ≤ B.card ∨ thrG V.card ≤ B.card)
+    (hF : F.card ≤ f V.card) : ∃ v, v ∈ A ∧ v ∈ B ∧ v ∉ F := by
+  obtain ⟨S, hSA, hSB, hS⟩ := conflicting_needs_more_than_f V A B hA hB hN ha hb
+  have hns : ¬ S ⊆ F := fun h => by have := Finset.card_le_card h; omega
+  obtain ⟨v, hv, hvF⟩ := Finset.not_subset.mp hns
+  exact ⟨v, hSA hv, hSB hv, hvF⟩
+
+/-- The governance threshold never exceeds the block-acceptance threshold, and both can be met by the
+N - f validators that are not faulty (so neither rule can be blocked by f silent validators). -/
+theorem thresholds_reachable (N : Nat) : thrG N ≤ thrA N ∧ thrA N ≤ N - f N := by
+  unfold thrG thrA f; omega
+
+/-- Both thresholds are the least ones with the intersection guarantee when N = 3f+1: one validator fewer
+and two sets of that size inside N validators may share only f. (Arithmetic form: 2(t-1) - N ≤ f.) -/
+theorem thresholds_tight (k : Nat) :
+    2 * (thrA (3 * k + 1) - 1) - (3 * k + 1) ≤ f (3 * k + 1) ∧
+    2 * (thrG (3 * k + 1) - 1) - (3 * k + 1) ≤ f (3 * k + 1) := by
+  unfold thrG thrA f; omega
+
+/-- The historical ledger rule `N - 6N/7` (selected by `needFix`: non-main networks, or header height up to
+20 000 000) is strictly weaker than the block-acceptance threshold for every N ≥ 2 ... -/
+theorem legacy_below_thrA (N : Nat) (hN : 2 ≤ N) : thrLegacy N < thrA N ∧ 2 * thrLegacy N ≤ N := by
+  unfold thrLegacy thrA; omega
+
+/-- ... and gives no intersection at all: for every N ≥ 2 there are two disjoint sets of validators that both
+meet it. The intersection theorems above therefore speak about headers checked under the modern rule only;
+`impl_ledger_needFix` below states exactly when the node selects which rule. -/
+theorem legacy_rule_has_disjoint_quorums (N : Nat) (hN : 2 ≤ N) :
+    ∃ A B : Finset Nat, A ⊆ Finset.range N ∧ B ⊆ Finset.range N ∧
+      thrLegacy N ≤ A.card ∧ thrLegacy N ≤ B.card ∧ A ∩ B = ∅ := by
+  have h := legacy_below_thrA N hN
+  have ht : thrLegacy N ≤ N := by unfold thrLegacy; omega
+  have hsub : Finset.range (thrLegacy N) ⊆ Finset.range N := Finset.range_subset_range.mpr ht
+  refine ⟨Finset.range (thrLegacy N), Finset.range N \ Finset.range (thrLegacy N), hsub,
+    Finset.sdiff_subset, by simp, ?_, ?_⟩
+  · rw [Finset.card_sdiff_of_subset hsub]; simp; omega
+  · exact Finset.inter_sdiff_self _ _
+
+/-- Non-vacuity of the witness: with seven validators the historical rule accepts a single signer. -/
+example : thrLegacy 7 = 1 ∧ thrA 7 = 5 ∧ f 7 = 2 := by decide
+
 /-! ## The thresholds computed by the node (generated definitions) equal the formulas, for every N -/
 
 private theorem tdivN (a : Int) (b : Int) (h : 0 ≤ a) : a.tdiv b = a / b := Int.tdiv_eq_ediv_of_nonneg h
